@@ -224,7 +224,7 @@ def c_categorize_drop_yield(repo):
     return {'category': src(t)}
 
 
-@control(['C19', 'C01', 'C09'], 'spacer-no-rollback', ['R19.b'], 'delete the cursor rollback of the spacer rule')
+@control(['C19', 'C01'], 'spacer-no-rollback', ['R19.b'], 'delete the cursor rollback of the spacer rule')
 def c_spacer_no_rollback(repo):
     t = parse(repo, 'tokens')
     fn = _rule_storing(t, 'MergedSpacer')
@@ -291,7 +291,7 @@ def c_ignore_revert(repo):
     return {'tokens': src(t)}
 
 
-@control(['C06', 'C10'], 'comment-loop-unguarded', ['R06.b'], 'delete the end-of-input conjunct of the comment rule loop')
+@control(['C06'], 'comment-loop-unguarded', ['R06.b'], 'delete the end-of-input conjunct of the comment rule loop')
 def c_comment_unguarded(repo):
     t = parse(repo, 'tokens')
     fn = _rule_storing(t, 'Comment')
@@ -302,16 +302,16 @@ def c_comment_unguarded(repo):
     return {'tokens': src(t)}
 
 
-@control(['C10'], 'registry-swap', ['R10.a'], 'register the comment rule before the escaped-symbol rule')
+@control(['C10'], 'registry-escaped-after-symbols', ['R10.a'], 'register the escaped-symbol rule after the single-character symbol rule')
 def c_registry_swap(repo):
     t = parse(repo, 'tokens')
-    rules = _rule_funcs(t)
     esc = _rule_storing(t, 'EscapedComment')
-    com = _rule_storing(t, 'Comment')
-    i, j = t.body.index(esc), t.body.index(com)
+    sym = _rule_storing(t, 'GroupBegin')
+    i, j = t.body.index(esc), t.body.index(sym)
     if i > j:
         raise NotApplicable('order')
-    t.body[i], t.body[j] = t.body[j], t.body[i]
+    t.body.insert(j + 1, esc)
+    del t.body[i]
     return {'tokens': src(t)}
 
 
@@ -401,7 +401,7 @@ def c_bare_next(repo):
     raise NotApplicable('bare-token branch')
 
 
-@control(['C06', 'C12'], 'math-loop-unguarded-peek', ['R06.b'], 'delete the hasNext() conjunct of the math-environment loop')
+@control(['C06'], 'math-loop-unguarded-peek', ['R06.b'], 'delete the hasNext() conjunct of the math-environment loop')
 def c_math_unguarded(repo):
     t = parse(repo, 'reader')
     fn = find_func(t, 'read_math_env')
@@ -615,4 +615,79 @@ def c_begin_unpinned(repo):
     fn = find_func(t, 'read_expr')
     a = _first(fn, lambda n: isinstance(n, ast.Assert) and isinstance(n.test, ast.BoolOp))
     a.test = a.test.values[0]
+    return {'reader': src(t)}
+
+
+# ---- dispatch structure (C10, C12, C09)
+
+@control(['C10'], 'reader-branches-on-comment', ['R10.c'], 'add a branch on the comment token kind to the expression dispatcher')
+def c_comment_branch(repo):
+    t = parse(repo, 'reader')
+    fn = find_func(t, 'read_expr')
+    new = ast.parse("if c.category == TC.Comment:\n    return TexText(c)").body[0]
+    idx = 1 if isinstance(fn.body[0], ast.Expr) and isinstance(fn.body[0].value, ast.Constant) else 0
+    fn.body.insert(idx + 1, new)
+    return {'reader': src(t)}
+
+
+@control(['C12'], 'math-body-not-math-mode', ['R12.b'], 'read the body of a math region in non-math mode')
+def c_math_mode(repo):
+    t = parse(repo, 'reader')
+    fn = find_func(t, 'read_math_env')
+    for n in ast.walk(fn):
+        if isinstance(n, ast.keyword) and n.arg == 'mode':
+            n.value = ast.Name('MODE_NON_MATH', ast.Load())
+            return {'reader': src(t)}
+    raise NotApplicable('mode keyword')
+
+
+@control(['C12'], 'named-math-no-switch', ['R12.c'], 'delete the math-mode switch for named math environments')
+def c_named_math(repo):
+    t = parse(repo, 'reader')
+    fn = find_func(t, 'read_expr')
+    remove_stmt(fn, lambda s_: isinstance(s_, ast.If) and 'MATH_ENV_NAMES' in ast.unparse(s_.test))
+    return {'reader': src(t)}
+
+
+@control(['C12'], 'operator-signature-removed', ['R12.e'], 'remove the zero-argument signature of \\cup')
+def c_cup(repo):
+    t = parse(repo, 'reader')
+    for st_ in t.body:
+        if isinstance(st_, ast.Assign) and isinstance(st_.targets[0], ast.Name) and st_.targets[0].id == 'SIGNATURES':
+            d = st_.value
+            for i, k in enumerate(d.keys):
+                if isinstance(k, ast.Constant) and k.value == 'cup':
+                    del d.keys[i]
+                    del d.values[i]
+                    return {'reader': src(t)}
+    raise NotApplicable('SIGNATURES')
+
+
+@control(['C09'], 'two-spacer-reads', ['R09.b'], 'read a second whitespace token in the optional-argument loop')
+def c_two_spacers(repo):
+    t = parse(repo, 'reader')
+    fn = find_func(t, 'read_arg_optional')
+    w = _first(fn, lambda n: isinstance(n, ast.While))
+    w.body.insert(1, ast.Expr(ast.Call(ast.Name('read_spacer', ast.Load()), [ast.Name(fn.args.args[0].arg, ast.Load())], [])))
+    return {'reader': src(t)}
+
+
+@control(['C09'], 'spacer-selects-branch', ['R09.d'], 'attach a brace group only when no whitespace precedes it')
+def c_spacer_branch(repo):
+    t = parse(repo, 'reader')
+    fn = find_func(t, 'read_arg_required')
+    w = _first(fn, lambda n: isinstance(n, ast.While))
+    i0 = _first(w, lambda n: isinstance(n, ast.If) and isinstance(n.test, ast.BoolOp) and 'GroupBegin' in ast.unparse(n.test))
+    i0.test.values.append(ast.UnaryOp(ast.Not(), ast.Name(w.body[0].targets[0].id, ast.Load())))
+    return {'reader': src(t)}
+
+
+@control(['C09'], 'group-closes-on-fixed-kind', ['R09.e'], 'close every group on a closing brace regardless of its opener')
+def c_group_fixed(repo):
+    t = parse(repo, 'reader')
+    fn = find_func(t, 'read_arg')
+
+    def pred(n):
+        return isinstance(n, ast.Attribute) and n.attr == 'token_end'
+    replace_expr(fn, pred, lambda n: ast.Attribute(ast.Name('TC', ast.Load()), 'GroupEnd', ast.Load()))
     return {'reader': src(t)}
